@@ -43,7 +43,7 @@ private theorem fast_seq (ct : String) (hct : ct = "list" ∨ ct = "tuple" ∨ c
   unfold writeNdarray
   simp [hxs, canonNumeric]
 
-private theorem filter_true' {α : Type} : ∀ (l : List α), List.filter (fun _ => true) l = l
+theorem filter_true' {α : Type} : ∀ (l : List α), List.filter (fun _ => true) l = l
   | [] => rfl
   | a :: l => by simp [List.filter, filter_true' l]
 
